@@ -132,6 +132,8 @@ pub struct GenOpts {
     /// a write (of another client) on the same guest cluster (known finding
     /// KF02 makes those runs uninformative about anything else)
     pub racy_discard_pct: u32,
+    /// number of SyncPoint ops (flush_meta + fsync_range at quiescence) to insert
+    pub sync_points: u32,
 }
 
 impl Default for GenOpts {
@@ -162,6 +164,7 @@ impl Default for GenOpts {
             max_write_clusters: 5,
             read_only_pct: 0,
             racy_discard_pct: 30,
+            sync_points: 0,
         }
     }
 }
@@ -211,6 +214,17 @@ pub fn gen_layer(rng: &mut Rng, o: &GenOpts, cluster_bits: u32, top: bool, idx_i
     }
     if cluster_bits >= 20 {
         vsize = vsize.min(l2cover + 8 * cs);
+    }
+    if o.growth_geometry && top {
+        // big enough that the host file crosses refblock (and with 64-bit
+        // refcounts and 512-byte clusters: refcount table) capacity
+        let rb_cover = cs * (cs * 8 / (1 << refcount_order));
+        let rt_cover = rb_cover * (cs / 8);
+        vsize = if rt_cover <= (4 << 20) && rng.chance(2, 3) {
+            (rt_cover + rt_cover / 4 + cs * rng.below(64)) / 512 * 512
+        } else {
+            (rb_cover * rng.range(2, 5) + cs * rng.below(64)).min(4 << 20)
+        };
     }
     let builder = o.force_builder || version == 2 || (o.allow_builder && rng.chance(1, 2)) || !top;
     let mut guest: Vec<(u64, u8)> = Vec::new();
@@ -615,6 +629,27 @@ pub fn gen_steps(rng: &mut Rng, cfg: &Cfg, o: &GenOpts) -> Vec<Step> {
     let allow_racy = rng.below(100) < o.racy_discard_pct as u64;
     let mut steps = Vec::new();
     let mut count = 0;
+    if o.growth_geometry {
+        // march across the disk so that the host file outgrows its refcount
+        // blocks / refcount table / active L1 entries
+        let cs = cfg.cs();
+        let vend = cfg.vend();
+        let mut pos = 0u64;
+        let stride_max = (vend / 8).max(cs * 8);
+        while pos < vend && steps.len() < 40 {
+            let len = (cs * rng.range(16, 480)).min(vend - pos).min(8 << 20);
+            steps.push(Step::Seq(Op::Write { off: pos, len: len as u32 }));
+            pos += len;
+            if rng.chance(1, 3) {
+                pos = (pos + cs * rng.below(stride_max / cs)).min(vend) / cs * cs;
+            }
+            match rng.below(8) {
+                0 => steps.push(Step::Seq(Op::Flush)),
+                1 => steps.push(Step::Seq(g.op(rng, cfg, o))),
+                _ => {}
+            }
+        }
+    }
     while count < n {
         if rng.below(100) < o.par_pct as u64 {
             let nc = rng.range(2, o.max_clients.max(2) as u64);
@@ -680,6 +715,10 @@ pub fn gen_steps(rng: &mut Rng, cfg: &Cfg, o: &GenOpts) -> Vec<Step> {
             steps.push(Step::Seq(op));
             count += 1;
         }
+    }
+    for _ in 0..o.sync_points {
+        let at = rng.below(steps.len() as u64 + 1) as usize;
+        steps.insert(at, Step::Seq(Op::SyncPoint));
     }
     steps
 }
